@@ -155,3 +155,82 @@ static Args c01_const_decode(Ctx& ctx, Dec& d)
 static Reg r_c01_const({ "C01.const", "C01", "rc",
   "generated programs: a translation unit generated from VERIF_SEED with compile-time constant operands K_i (boundary, power-of-two, small and random constants) in the shapes a+K, K+a, a-K, K-a, a+=K, four-fold acc+=K, isnan(a+K), compiled under every configuration; the run-time operand a is result-targeted (a solved so that the exact result is a range boundary +-3); oracle: exact model; non-trivial = the exact result leaves the range or lies within 2^17 of the limit",
   c01_const_check, 16, c01_const_decode, nullptr });
+
+// ---- C01.expr / C08.prog: generated expression programs ------------------------------------------
+// args = [program index, a, b, c]. Kind 0 programs use only + and -: the harness interprets the same
+// postfix string on the exact model and demands the exact result (or NaN) from every build. Kind 1
+// programs mix * / - abs floor: they are compared across builds only (C08), and only when no build
+// saw a NaN intermediate (later steps are then outside every property).
+static MV expr_model(const char* pf, const int64_t* ks, int nks, int64_t a, int64_t b, int64_t c)
+{
+  MV st[32]; int n = 0; const char* p = pf;
+  while (*p) {
+    while (*p == ' ') ++p; if (!*p) break;
+    if (*p == 'a' || *p == 'b' || *p == 'c') { st[n++] = MV::fin(*p == 'a' ? a : *p == 'b' ? b : c); ++p; }
+    else if (*p == 'k') { int i = atoi(p + 1); st[n++] = MV::fin(i < nks ? ks[i] : 0); ++p; while (*p >= '0' && *p <= '9') ++p; }
+    else if (*p == '+' || *p == '-') { MV y = st[--n], x = st[--n]; st[n++] = *p == '+' ? m_add(x, y) : m_sub(x, y); ++p; }
+    else return MV::unspec();
+  }
+  return n == 1 ? st[0] : MV::unspec();
+}
+static void c01_expr_check(Ctx& ctx, const Args& a)
+{
+  if (a.size() != 4 || ctx.cuts.empty() || !ctx.cuts[0].ptable || a[0] < 0 || a[0] >= ctx.cuts[0].np || !m_finite128(a[1]) || !m_finite128(a[2]) || !m_finite128(a[3])) { ctx.skip(); return; }
+  int idx = (int)a[0]; const Cut::PEntry& pe = ctx.cuts[0].ptable[idx]; if (pe.kind != 0) { ctx.skip(); return; }
+  MV e = expr_model(pe.postfix, ctx.cuts[0].kconsts, ctx.cuts[0].nkc, a[1], a[2], a[3]);
+  if (e.k == MV::UNSPEC) { ctx.skip(); return; }      // an earlier step already overflowed: later steps are outside the property
+  if (e.k == MV::NAN_) { ctx.cls("overflow"); ctx.nontriv(); } else if (iabs128(e.v) >= (i128)MAXF - 131072) { ctx.cls("near-limit"); ctx.nontriv(); } else ctx.cls("interior");
+  for (size_t ci = 0; ci < ctx.cuts.size(); ++ci) {
+    const Cut& cu = ctx.cuts[ci]; if (!cu.ptable || cu.np <= idx || strcmp(cu.ptable[idx].postfix, pe.postfix)) { ctx.fail(ci, "generated program tables differ between configurations (harness error)"); continue; }
+    ProgResult r = cut_call_p(cu, idx, a[1], a[2], a[3]); ++ctx.executions;
+    if (ctx.verbose()) ctx.case_calls.push_back(strf("%s [%s](a=%" PRId64 ", b=%" PRId64 ", c=%" PRId64 ") -> %" PRId64, cu.name.c_str(), pe.postfix, a[1], a[2], a[3], r.v));
+    if (r.trap) { ctx.fail(ci, strf("program [%s] did not return: %s", pe.postfix, g_trap_why)); continue; }
+    bool ok = e.k == MV::NAN_ ? m_isnan(r.v) : r.v == (int64_t)e.v;
+    if (!ok) ctx.fail(ci, strf("generated expression [%s] with a=%" PRId64 ", b=%" PRId64 ", c=%" PRId64 " = %" PRId64 ", expected %s", pe.postfix, a[1], a[2], a[3], r.v, e.k == MV::NAN_ ? "NaN" : i128s(e.v).c_str()));
+  }
+}
+static Args c01_expr_decode(Ctx& ctx, Dec& d)
+{
+  int np = ctx.cuts.empty() || !ctx.cuts[0].ptable ? 1 : ctx.cuts[0].np; int idx = (int)d.range(0, np / 2 > 0 ? np / 2 - 1 : 0);   // kind 0 programs come first
+  int cls = (int)d.range(0, 2); int bits = cls == 0 ? 63 : cls == 1 ? 62 : 61;
+  int64_t a = dec_raw(d, bits), b = dec_raw(d, bits), c = dec_raw(d, bits); int mode = (int)d.range(0, 3); int ti = (int)d.range(0, kNAddTargets - 1); int dl = (int)d.range(-3, 3);
+  if (mode && ctx.cuts[0].ptable) { // solve one operand so that the whole expression lands on a boundary (the expression is affine in each variable)
+    const Cut::PEntry& pe = ctx.cuts[0].ptable[idx]; int which = mode - 1; int64_t v[3] = { a, b, c }; v[which] = 0;
+    // evaluate the affine form: value(0) and value(1) in 128-bit without range checks
+    auto raw_eval = [&](int64_t x0, int64_t x1, int64_t x2) { i128 st[32]; int n = 0; const char* p = pe.postfix; while (*p) { while (*p == ' ') ++p; if (!*p) break; if (*p == 'a') { st[n++] = x0; ++p; } else if (*p == 'b') { st[n++] = x1; ++p; } else if (*p == 'c') { st[n++] = x2; ++p; } else if (*p == 'k') { int i = atoi(p + 1); st[n++] = i < ctx.cuts[0].nkc ? ctx.cuts[0].kconsts[i] : 0; ++p; while (*p >= '0' && *p <= '9') ++p; } else { i128 y = st[--n], x = st[--n]; st[n++] = *p == '+' ? x + y : x - y; ++p; } } return n ? st[0] : (i128)0; };
+    i128 f0 = raw_eval(v[0], v[1], v[2]); v[which] = 1; i128 f1 = raw_eval(v[0], v[1], v[2]); i128 slope = f1 - f0;
+    if (slope != 0) { i128 T = kAddTargets[ti] + dl; i128 x = (T - f0) / slope; if (x > (i128)MAXF) x = MAXF; if (x < -(i128)MAXF) x = -(i128)MAXF; (which == 0 ? a : which == 1 ? b : c) = (int64_t)x; }
+  }
+  return { idx, a, b, c };
+}
+static Reg r_c01_expr({ "C01.expr", "C01", "rc",
+  "generated programs: 40 random expression trees per VERIF_SEED over three run-time operands and the generated constants with + and - (depth 2..4), compiled as straight-line code under every configuration; one operand is solved so that the whole (affine) expression lands on a range boundary +-3; oracle: the same postfix string interpreted on the exact model (a step after the first overflow is outside the property: skipped); non-trivial = the exact result overflows or lies within 2^17 of the limit",
+  c01_expr_check, 24, c01_expr_decode, nullptr });
+
+static void c08_prog_check(Ctx& ctx, const Args& a)
+{
+  if (a.size() != 4 || ctx.cuts.empty() || !ctx.cuts[0].ptable || a[0] < 0 || a[0] >= ctx.cuts[0].np || !m_finite128(a[1]) || !m_finite128(a[2]) || !m_finite128(a[3])) { ctx.skip(); return; }
+  int idx = (int)a[0]; const Cut::PEntry& pe = ctx.cuts[0].ptable[idx];
+  int64_t ref = 0; bool have = false, anynan = false, anyclean = false; size_t refci = 0; std::vector<ProgResult> rs(ctx.cuts.size());
+  for (size_t ci = 0; ci < ctx.cuts.size(); ++ci) {
+    const Cut& cu = ctx.cuts[ci]; if (!cu.ptable || cu.np <= idx) { ctx.skip(); return; }
+    rs[ci] = cut_call_p(cu, idx, a[1], a[2], a[3]); ++ctx.executions;
+    if (rs[ci].trap) { ctx.fail(ci, strf("program [%s] did not return: %s", pe.postfix, g_trap_why)); return; }
+    if (rs[ci].flag) anynan = true; else anyclean = true;
+  }
+  if (anynan && !anyclean) { ctx.cls("NaN-intermediate(not compared)"); return; }
+  ctx.cls(pe.kind ? "mixed-operators" : "add-sub"); ctx.nontriv();
+  for (size_t ci = 0; ci < ctx.cuts.size(); ++ci) {
+    if (anynan && anyclean && rs[ci].flag) { ctx.fail(ci, strf("program [%s] (a=%" PRId64 ", b=%" PRId64 ", c=%" PRId64 ") meets a NaN intermediate on %s but not on other builds", pe.postfix, a[1], a[2], a[3], ctx.cuts[ci].name.c_str())); return; }
+    if (!have) { have = true; ref = rs[ci].v; refci = ci; }
+    else if (rs[ci].v != ref) ctx.fail(ci, strf("program [%s] (a=%" PRId64 ", b=%" PRId64 ", c=%" PRId64 ") = %" PRId64 " on %s but %" PRId64 " on %s", pe.postfix, a[1], a[2], a[3], rs[ci].v, ctx.cuts[ci].name.c_str(), ref, ctx.cuts[refci].name.c_str()));
+  }
+}
+static Args c08_prog_decode(Ctx& ctx, Dec& d)
+{
+  int np = ctx.cuts.empty() || !ctx.cuts[0].ptable ? 1 : ctx.cuts[0].np; int idx = (int)d.range(0, np - 1); int cls = (int)d.range(0, 3); int bits = cls == 0 ? 20 : cls == 1 ? 32 : cls == 2 ? 46 : 62;
+  return { idx, dec_raw(d, bits), dec_raw(d, bits), dec_raw(d, bits) };
+}
+static Reg r_c08_prog({ "C08.prog", "C08", "rc",
+  "generated programs: 80 random straight-line expression programs per VERIF_SEED (40 with + and -, 40 mixing + - * / unary minus abs floor; depth 2..4) over three run-time operands and generated constants, compiled under every configuration; operands in four magnitude classes; oracle (differential): identical result on every build whenever no build met a non-finite intermediate (NaN, or -2^63 from a floor outside its domain: later steps are then outside every property), and all builds agree on whether one occurred; non-trivial = compared cases",
+  c08_prog_check, 20, c08_prog_decode, nullptr });
